@@ -233,8 +233,10 @@ func (x *B[T]) chanView(c int) signal.C[T] {
 // chanViewMode selects how the harness obtains channel views: 0 Buffer.Channel, 1 composite literal for
 // channel 0, 2 a view of another buffer retargeted through the exported Buffer field.
 var chanViewMode int
+
 func (x *B[T]) KeptChanSample(c, i int) uint64 { return enc(x.chanView(c).Sample(i), x.k) }
 func (x *B[T]) KeptChanSet(c, i int, v uint64) { x.chanView(c).SetSample(i, dec[T](v, x.k)) }
+
 // the channel argument of C.BufferIndex is not the view's channel on purpose (the view addresses its own
 // channel whatever it is given): it rotates through other values
 func (x *B[T]) KeptChanIndex(c, i int) int {
